@@ -552,7 +552,7 @@ READ_OK = {
     "context": "error decoration", "ok_or_else": "Option -> Result", "map_err": "error conversion", "try_from": "tag byte -> enum (R08.2)",
     "to_owned": "copy", "clone": "copy", "to_vec": "copy", "from_utf8_lossy": None}
 WRITE_OK = {
-    "serialize": "nested encode", "index": "sub-slice", "extend": "byte append", "with_capacity": "buffer constructor", "next": "iteration",
+    "serialize": "nested encode", "index": "sub-slice", "extend": "byte append", "extend_from_slice": "byte append", "with_capacity": "buffer constructor", "next": "iteration",
     "to_le_bytes": "fixed-width integer encode", "octets": "address bytes", "as_str": "view", "as_bytes": "view", "len": "length prefix",
     "ip": "SocketAddr accessor", "port": "SocketAddr accessor", "iter": "iteration", "as_ref": "view", "as_slice": "view"}
 
